@@ -354,6 +354,28 @@ theorem setWs_rel (b : WB) (g : G) (tag : Tag) (hc : Core b g) (hw : er b.word =
     · exact ⟨hc, hw, by simp [hwl], by simp [h0, h1], by omega, hcp⟩
     · exact ⟨hc, hw, by simp [hwl], h0, ht, hcp⟩
 
+theorem er_noContent (l : TLine) (h : l.noContent = true) : er l = [] := by
+  induction l with
+  | nil => rfl
+  | cons e l ih =>
+    cases e with
+    | cell c => simp [TLine.noContent, Elt.isCell] at h
+    | frag n =>
+      have h' : TLine.noContent l = true := by simpa [TLine.noContent, Elt.isCell] using h
+      simp [ih h']
+
+/-- rescuing markers does not change the characters of any line -/
+theorem erL_rescueMarks (text : List TLine) (line : TLine) (h : line.noContent = true) : erL (rescueMarks text line) = erL text := by
+  unfold rescueMarks
+  split
+  · rename_i last hl
+    have ht : text = text.dropLast ++ [last] := by
+      have := dropLast_append_of_getLast? _ last hl
+      exact this.symm
+    conv => rhs; rw [ht]
+    simp [erL, er_noContent line h]
+  · rfl
+
 theorem finish_rel (b : WB) (g : G) (hc : Core b g) : erL b.flushLine.text = g.finish := by
   have := Core_newline b g hc
   unfold G.finish
